@@ -114,7 +114,10 @@ def gen_h(mode, length, depth="3", simulate=None, skip=None):
     j = {"module": "Gen_Histogram", "cfg": "Gen_Histogram_%s.cfg" % mode,
          "overrides": {"LEN": str(length), "BuildLen": str(length + 1), "MaxDepth": depth}, "family": "histogram", "timeout": 7200}
     if simulate:
+        # one worker: the traces (and the number of lines: every successor of every visited state is
+        # emitted, about 470 per trace of depth 12) are then a function of the seed alone
         j["simulate"] = simulate
+        j["workers"] = 1
     if skip is not None:
         j["skip"] = skip
     return j
@@ -126,7 +129,7 @@ def tr_h(length, n=("2000", "20000")):
 
 
 H_HIST = [gen_h("hist", 1), gen_h("hist", 2, depth=("3", "4")), gen_h("hist", 3),
-          gen_h("hist", 2, depth="12", simulate={"num": 300, "depth": 12}, skip=(True, False)),
+          gen_h("hist", 2, depth="12", simulate={"num": (150, 300), "depth": 12}),
           gen_h("hist", 4, depth="10", simulate={"num": 300, "depth": 10}, skip=(True, False))]
 
 def long_job(types, emb, max_n=("10000", "1000000")):
